@@ -459,17 +459,26 @@ package immutable
 //@   ensures [index_item_covers_the_chunk_when_kept_open] result == nil && got && !switched ==> c.mIndex.minTime <= mn && c.mIndex.maxTime >= mx && c.trailer.minTime <= mn && c.trailer.maxTime >= mx
 
 // ================================================================ C03: streaming compaction keeps every column
-//@ prop C03
+//@ prop C03 C09
 // The output schema of a series is the union of the schemas of ALL its source chunks: every source chunk that joins the
 // series' iterator list has had its columns merged into the schema first (a column present only in a later file must not
 // be dropped because the column COUNT happens to match).
 //@ func (*StreamIterators).genChunkSchema
-//@   stable immutable.FileIterator.curtChunkMeta immutable.StreamIterator.FileIterator
+//@   stable immutable.FileIterator.curtChunkMeta immutable.StreamIterator.FileIterator immutable.StreamIterators.chunkSegments immutable.ChunkMeta.timeRange
 //@   ghost last Ptr = nil
 //@   call (*StreamIterators).mergeSchema
 //@     set last = arg0
 //@   call append with c.chunkItrs
 //@     requires [schema_of_every_source_chunk_is_merged] last == itr.curtChunkMeta
+// ... and the series' segment count, which decides whether the statistics of the source chunks may simply be folded or
+// have to be recomputed per output part (a series cut into several files), is the SUM over all source chunks.
+//@   ghost n int = 0
+//@   store StreamIterators.chunkSegments
+//@     requires [segment_count_starts_with_the_first_source_chunk] n == 0 ==> val == len(itr.curtChunkMeta.timeRange)
+//@     requires [segment_count_adds_every_further_source_chunk] n > 0 ==> val == obj.chunkSegments + len(itr.curtChunkMeta.timeRange)
+//@     set n = n + 1
+//@   loop 1
+//@     invariant n >= 1
 
 // ================================================================ C02/C03: compaction's k-way merge of chunks
 // The record handed to the writer must not share storage with an iterator's decode buffer, which the following
@@ -547,3 +556,27 @@ package immutable
 //@     requires [last_block_ends_at_the_last_series] i == blocks - 1 ==> startIdx + count == rows
 //@   loop 1
 //@     invariant startIdx == i * maxBlock && i <= blocks && (i < blocks ==> count == maxBlock)
+
+// ================================================================ C01/C03: committing the files of a flush
+// A flush may have produced several data files (the builder switches to a new file when one is full). ALL of them are
+// renamed from their temporary name before the flush is reported done - also when the builder's current file turned
+// out empty and no file was added by this call: files left as *.init are deleted as left-overs at the next start.
+//@ prop C01 C03
+//@ func WriteIntoFile
+//@   ghost committed bool = false
+//@   call RenameTmpFiles
+//@     requires arg0 == msb.Files
+//@     set committed = true
+//@   call RenameTmpFilesWithPKIndex
+//@     requires arg0 == msb.Files
+//@     set committed = true
+//@   ensures [every_file_of_the_flush_is_committed] result == nil ==> committed
+
+// A meta-index entry describes a non-empty block of chunk metas. When the last block was closed exactly at its limit
+// (k * 512 series) there is nothing left to switch at Flush: an entry with id 0 and an empty time range at the END of
+// the id-sorted index makes point lookups (every query) land on it and miss the series of the last real block.
+//@ prop C03 C02
+//@ func (*StreamWriteFile).Flush
+//@   requires c != nil
+//@   call (*StreamWriteFile).SwitchChunkMeta
+//@     requires [no_meta_index_entry_for_an_empty_block] c.mIndex.count > 0
